@@ -11,8 +11,8 @@ implementation really visited is compared with the planned set afterwards."""
 import os
 import vlib
 
-PROOFS = ["MgProof.C07.Lemmas", "MgProof.C07.LemmasOps", "MgProof.C07.Props"]
-GREP = ["MgModel/C07", "MgProof/C07", "MgModel/Common", "Drv/C07.lean"]
+PROOFS = ["MgProof.Tie.Bits", "MgProof.C07.Lemmas", "MgProof.C07.LemmasOps", "MgProof.C07.Props"]
+GREP = ["MgProof/Tie", "MgModel/Generated", "MgModel/C07", "MgProof/C07", "MgModel/Common", "Drv/C07.lean"]
 REPO_SRCS = ["muggle/c/memory/bytes_buffer.c"]
 
 TRUSTED = [
@@ -335,6 +335,7 @@ def main(ctx):
         "stream (negative/huge sizes, ops before init, capacity 0/1/negative, contract-breaking k); + corpus. "
         "distinct = distinct op lists; non-trivial = at least one successful operation")
     ctx.lean_obligations("drv_c07", PROOFS, GREP, leanchecker=["MgProof.C07.Props"])
+    vlib.tie_a_generated(ctx)
     if not getattr(ctx, "driver_ok", False):
         return
     try:
